@@ -88,7 +88,14 @@ impl<'tcx> Ctx<'tcx> {
         }
         self.adts.insert(path.clone(), String::new());
         let mut variants = vec![];
-        for v in adt.variants().iter() {
+        // discriminant values (SwitchInt on a discriminant compares with these, not with variant indices)
+        let mut dvals: Vec<String> = vec![];
+        if adt.is_enum() {
+            for (_vi, d) in adt.discriminants(tcx) {
+                dvals.push(format!("{}", d.val));
+            }
+        }
+        for (vpos, v) in adt.variants().iter().enumerate() {
             let mut fields = vec![];
             for f in v.fields.iter() {
                 let fty = tcx.type_of(f.did).instantiate_identity().skip_norm_wip();
@@ -101,6 +108,7 @@ impl<'tcx> Ctx<'tcx> {
             variants.push(jobj(vec![
                 ("name", jstr(&v.name.to_string())),
                 ("fields", jarr(fields)),
+                ("discr", jstr(dvals.get(vpos).map(|s| s.as_str()).unwrap_or(""))),
             ]));
         }
         let kind = if adt.is_enum() {
